@@ -182,4 +182,93 @@ def run(prop, tier, seed, replay):
     return code
 
 
+
+
+def run_c04(prop, tier, seed, replay):
+    """C04: design level (all interleavings of the small-step builder), exact TLC schedules replayed through gated
+    loader futures, random schedules and repetitions on registry worlds; uniqueness of the observation decided by T_Det."""
+    import props_core as PC
+    t0 = time.time()
+    work = os.path.join(P.WORKROOT, f"{prop}-{tier}")
+    shutil.rmtree(work, ignore_errors=True)
+    os.makedirs(work)
+    out = P.Outcome(prop)
+    instances = []
+    T_DET = os.path.join(P.SPEC, "trace", "T_Det.tla")
+    T_DET_CFG = os.path.join(P.SPEC, "trace", "T_Det.cfg")
+    traces = []
+    runs = 0
+    samples = []
+    if replay:
+        payload = json.load(open(replay))
+        cases_path = os.path.join(work, "cases.ndjson")
+        if payload.get("case"):
+            open(cases_path, "w").write(json.dumps(payload["case"]) + "\n")
+            cmds = [[P.DGV, "sched", "--cases", cases_path]]
+        else:
+            cmds = [[P.DGV, "sched", "--n", str(payload.get("n", 50)), "--seed", str(payload.get("seed", seed))]]
+    else:
+        steps = os.path.join(MC, "MC_Steps.tla")
+        for cfgname, crit in (("steps_q", True), ("steps_live", True), ("steps_emit", False)):
+            r = P.tlc_mc(steps, os.path.join(MC, cfgname + ".cfg"), work, workers=min(8, P.NCPU), timeout=3600)
+            if r["errors"]:
+                raise P.ToolError(f"TLC errors in {cfgname}: {r['errors'][:3]}")
+            instances.append({k: r[k] for k in ("name", "generated", "distinct", "wall", "violated")})
+            for inv in r["violated"]:
+                out.notes.append(f"design-level: {inv} violated in {cfgname}")
+            if cfgname == "steps_emit":
+                cases_path = os.path.join(work, "cases.ndjson")
+                P.extract("REPLAY", r["out"], cases_path)
+            os.remove(r["out"])
+        nrand = 400 if tier == "quick" else 6000
+        cmds = [[P.DGV, "sched", "--cases", cases_path],
+                [P.DGV, "sched", "--n", str(nrand), "--seed", str(seed), "--schedules", "6" if tier == "quick" else "12", "--repeat", "4"],
+                [P.DGV, "sched", "--n", str(nrand // 2), "--seed", str(seed + 1), "--faults", "--schedules", "6", "--repeat", "2"]]
+    for i, c in enumerate(cmds):
+        tp = os.path.join(work, f"sched{i}.trace")
+        rp = os.path.join(work, f"sched{i}.json")
+        rr = P.sh(c + ["--trace", tp, "--result", rp], timeout=3000)
+        if rr.returncode != 0:
+            raise P.ToolError("dgv sched failed")
+        res = json.load(open(rp))
+        runs += res["runs"]
+        lines = open(tp).readlines()
+        worlds = {}
+        for ln in lines:
+            if ln.startswith('{"ev":"world"'):
+                e = json.loads(ln)
+                worlds[e["world"]] = e["w"]
+        for m in res["mismatches"]:
+            out.violation(f"{m['what']} in {m['world']}", dict(property=prop, source="sched", detail=m, world=worlds.get(m["world"]),
+                          case=None, seed=seed, n=0))
+        merged = P.validate_trace(T_DET, T_DET_CFG, tp, work, reset_prefix='{"ev":"world"')
+        for m in merged["mismatch"]:
+            # find the world of that line
+            wid = None
+            for ln in lines[:m["l"]][::-1]:
+                if ln.startswith('{"ev":"world"'):
+                    wid = json.loads(ln)["world"]
+                    break
+            out.violation(f"{m['what']} at trace line {m['l']}", dict(property=prop, source="sched-trace", what=m["what"], observed=m.get("obs"),
+                          expected=m.get("exp"), world=worlds.get(wid), case=None))
+        out.drift.extend(merged["drift"])
+        for st in merged["stopped"]:
+            raise P.ToolError(f"trace validation stopped: {st}")
+        if lines:
+            samples.append({"trace_event": json.loads(lines[1]) if len(lines) > 1 else json.loads(lines[0])})
+    code = out.finish()
+    coverage = dict(states=max(1, sum(i["distinct"] for i in instances)), transitions=max(1, sum(i["generated"] for i in instances)),
+                    traces_validated_against_impl=runs, samples=samples or [{"note": "replay"}], exhaustive=False,
+                    design_notes=out.notes, instances=instances, spec_drift=len(out.drift),
+                    explanation="design level: TLC explores every interleaving of Land/Consume/EnterDyn/Finish for the bounded URL worlds and checks the terminal graph equals the "
+                                "in-order run, deadlock freedom and termination under fairness; implementation level: every TLC-generated schedule is replayed through gated "
+                                "loader futures, seeded random schedules and repetitions run on registry worlds; T_Det checks the terminal observation is unique per world")
+    P.write_evidence(prop, tier, seed, "model_checking", coverage, time.time() - t0, len(out.violations),
+                     assumptions=["schedules of registry worlds are sampled (reverse, in-order, random), not enumerated"])
+    if tier == "quick" or code == 0:
+        shutil.rmtree(work, ignore_errors=True)
+    return code
+
+
 REGISTRY = {p: run for p in ("C03", "C05", "C06", "C07")}
+REGISTRY["C04"] = run_c04
